@@ -583,6 +583,186 @@ def mutate_tree(tree, rng):
     return out
 
 
+# ---------------------------------------------------------------------------
+# content forms of metadata members: the same logical link file / side-car / gophermap / HTML title
+# written the way different authoring systems write text.  A form works on the raw bytes (latin-1 str)
+# of a member whose lines end in LF.
+#   term  : line terminators (one: used for every line; several: chosen line by line)
+#   final : the last line is terminated
+#   mid   : bytes put in place of one blank INSIDE the value of some lines
+#   tail  : bytes appended to every line before its terminator; eof: bytes appended at the very end
+#   pad   : lengths some values are stretched to (words appended to the line)
+#   bulk  : side-cars get that many extra lines (total size beyond what a bounded read returns)
+# class = what the form varies (goes into the violation tag)
+# ---------------------------------------------------------------------------
+FORMS = [
+    ("lf", "newline", {}),
+    ("crlf", "newline", {"term": ["\r\n"]}),
+    ("cr", "newline", {"term": ["\r"]}),
+    ("mixed", "newline", {"term": ["\n", "\r\n", "\r"]}),
+    ("lf-no-final-newline", "newline", {"final": False}),
+    ("crlf-no-final-newline", "newline", {"term": ["\r\n"], "final": False}),
+    ("cr-no-final-newline", "newline", {"term": ["\r"], "final": False}),
+    ("crlf-trailing-blanks", "newline", {"term": ["\r\n"], "tail": " \t"}),
+    ("cr-mixed-no-final-newline", "newline", {"term": ["\r", "\r", "\n"], "final": False}),
+    ("long-lines", "long-line", {"pad": [80, 300, 9000]}),
+    ("long-lines-cr", "long-line", {"term": ["\r"], "pad": [71, 72, 73, 8200]}),
+    ("non-utf8-bytes", "bytes", {"mid": ["\xe9", "\xff\xfe", "\xc3", "\xed\xa0\x80"]}),
+    ("non-utf8-bytes-crlf", "bytes", {"term": ["\r\n"], "mid": ["\xe9", "\x80"]}),
+    ("utf8-bom", "bytes", {"bom": True, "mid": ["\xc3\xa9"]}),
+    ("nul-bytes", "bytes", {"mid": ["\x00"]}),
+    ("truncated-utf8-at-eof", "bytes-at-eof", {"final": False, "eof": "\xe2\x82"}),
+    ("form-feed", "unicode-linebreak", {"mid": ["\x0c"]}),
+    ("vertical-tab", "unicode-linebreak", {"mid": ["\x0b"]}),
+    ("fs-gs-rs", "unicode-linebreak", {"mid": ["\x1c", "\x1d", "\x1e"]}),
+    ("nel", "unicode-linebreak", {"mid": ["\xc2\x85"]}),
+    ("u2028", "unicode-linebreak", {"mid": ["\xe2\x80\xa8"]}),
+    ("u2029-crlf", "unicode-linebreak", {"term": ["\r\n"], "mid": ["\xe2\x80\xa9"]}),
+    ("bulky-sidecar", "bounded-read", {"bulk": 500}),
+    ("bulky-sidecar-cr", "bounded-read", {"term": ["\r"], "bulk": 700}),
+]
+FORM_CLASS = {n: c for n, c, _ in FORMS}
+FORM_SPEC = {n: s for n, _, s in FORMS}
+
+
+def is_metadata(path):
+    """members whose CONTENT decides how a menu / an info block looks"""
+    parts = path.split("/")
+    n = parts[-1]
+    return (n in (".names", ".Links", "gophermap", ".abstract") or n.endswith((".abstract", ".html", ".gophermap"))
+            or (len(parts) >= 2 and parts[-2] == ".cap"))
+
+
+def meta_dir(path):
+    """the directory whose menu a metadata member shapes"""
+    parts = path.split("/")
+    if len(parts) >= 2 and parts[-2] == ".cap":
+        parts = parts[:-1]
+    return "/".join(parts[:-1])
+
+
+def in_form(raw, form, rng, sidecar=False):
+    """raw bytes (latin-1 str, LF lines) of a metadata member -> the same text in the given content form"""
+    spec = FORM_SPEC[form]
+    lines = raw.split("\n")
+    last_terminated = lines[-1] == ""
+    if last_terminated:
+        lines = lines[:-1]
+    if sidecar and spec.get("bulk"):
+        lines = lines + ["filler line %04d of a long abstract, forty-odd bytes" % i for i in range(spec["bulk"])]
+    mids, pads = spec.get("mid"), spec.get("pad")
+    out = []
+    for i, ln in enumerate(lines):
+        k = ln.find(" ", 6)
+        if mids and k > 0 and not ln.startswith(("Path=", "Host=", "Port=", "Type=", "Numb=")) and "\t" not in ln[:k]:
+            ln = ln[:k] + mids[i % len(mids)] + ln[k + 1:]
+        if pads and ("=" in ln[:9] or sidecar) and not ln.startswith(("Path=", "Host=", "Port=", "Type=", "Numb=")) \
+                and not ln.endswith("\\") and "\t" not in ln:
+            want = pads[i % len(pads)]
+            w = 0
+            while len(ln) < want:
+                ln += " w%d" % w
+                w += 1
+            ln = ln[:want] if len(ln) > want and ln[want - 1] != " " else ln
+        out.append(ln + spec.get("tail", ""))
+    terms = spec.get("term", ["\n"])
+    res = "\xef\xbb\xbf" if spec.get("bom") else ""
+    for i, ln in enumerate(out):
+        t = terms[0] if len(terms) == 1 else rng.choice(terms)
+        if i == len(out) - 1 and not (last_terminated and spec.get("final", True)):
+            t = ""
+        res += ln + t
+    return res + spec.get("eof", "")
+
+
+def form_rotation(rng):
+    """every form, starting somewhere else in every run; the newline conventions come round first"""
+    names = [n for n, _, _ in FORMS]
+    k = rng.randrange(len(names))
+    rest = names[k:] + names[:k]
+    first = [n for n in rest if FORM_CLASS[n] == "newline"]
+    other = [n for n in rest if FORM_CLASS[n] != "newline"]
+    out = []
+    while first or other:          # two newline conventions, then one of the others ...
+        out += first[:2] + other[:1]
+        first, other = first[2:], other[1:]
+    return out
+
+
+def apply_forms(ents, rng, rotation=None):
+    """Rewrite the metadata members of a tree directory by directory: everything that shapes the menu of
+    one directory is put into ONE content form (entry key 'form'), the forms are dealt out in rotation.
+    Documents are left alone."""
+    rot = rotation or form_rotation(rng)
+    by_dir = {}
+    k = 0
+    for e in ents:
+        if e["kind"] == "archive":
+            apply_forms(e["tree"], rng, rot[k + 1:] + rot[:k + 1])
+            continue
+        if e["kind"] != "file" or not is_metadata(e["path"]):
+            continue
+        d = meta_dir(e["path"])
+        if d not in by_dir:
+            by_dir[d] = rot[k % len(rot)]
+            k += 1
+        e["form"] = by_dir[d]
+        e["data"] = in_form(e["data"], by_dir[d], rng, sidecar=e["path"].endswith(".abstract"))
+    return ents
+
+
+def forms_tree(rng, forms=None):
+    """one directory per content form, each with the same logical content: documents, a link file that
+    renames / renumbers / describes them and points elsewhere, side-cars, a .cap entry, a gophermap
+    directory, an HTML title"""
+    ents = []
+    for i, form in enumerate(forms or [n for n, _, _ in FORMS]):
+        d = "f-" + form
+        ents.append({"path": d, "kind": "dir", "explicit": i % 2 == 0, "flag": False})
+        docs = [("one.txt", "document one\n"), ("two.txt", "document two\n"), ("four.txt", "document four\n"),
+                ("five.txt", "document five\n")]
+        for n, data in docs:
+            ents.append({"path": join(d, n), "kind": "file", "data": data, "flag": False})
+        links = ("# a link file in the form %s\n"
+                 "Name=Renamed one in this form\nPath=./one.txt\nNumb=2\nAbstract=first line of it \\\nsecond line of it\n"
+                 "\n"
+                 "Name=Second one comes first\nType=0\nPath=./two.txt\nNumb=1\n"
+                 "\n"
+                 "# a comment between blocks\n"
+                 "Name=Somewhere else entirely\nType=1\nPath=/other\nHost=other.example\nPort=7070\n"
+                 "\n"
+                 "Name=A file of the site\nType=0\nPath=/outside.txt\n" % form)
+        ents.append({"path": join(d, [".names", ".Links"][i % 2]), "kind": "file", "data": to_raw(links), "flag": False})
+        ents.append({"path": join(d, "four.txt.abstract"), "kind": "file", "flag": False,
+                     "data": to_raw("About four, first line\nsecond line of it\n   an indented third line\n\nafter a blank line\n")})
+        ents.append({"path": join(d, ".abstract"), "kind": "file", "flag": False,
+                     "data": to_raw("About the directory in the form %s\nsecond line of that\n" % form)})
+        ents.append({"path": join(d, ".cap"), "kind": "dir", "explicit": i % 3 == 0, "flag": False})
+        ents.append({"path": join(d, ".cap/five.txt"), "kind": "file", "flag": False,
+                     "data": "Name=Capped name of five\nNumb=3\nAbstract=capped abstract of five\n"})
+        ents.append({"path": join(d, "three.html"), "kind": "file", "flag": False,
+                     "data": to_raw("<html>\n<head>\n<title>Title of three\nover two lines &amp; more</title>\n</head>\n"
+                                    "<body>\nthree\n</body>\n</html>\n")})
+        ents.append({"path": join(d, "gm"), "kind": "dir", "explicit": False, "flag": False})
+        ents.append({"path": join(d, "gm/x.txt"), "kind": "file", "data": "x\n", "flag": False})
+        ents.append({"path": join(d, "gm/gophermap"), "kind": "file", "flag": False,
+                     "data": to_raw("iWelcome to the map in form %s\tfake\t(NULL)\t0\na plain info line\n0The x file\tx.txt\n"
+                                    "1Other host\t/x\tother.example\t7070\n0Site file\t/outside.txt\n" % form)})
+        for e in ents:
+            if e["kind"] == "file" and "form" not in e and is_metadata(e["path"]) and e["path"].startswith(d + "/"):
+                e["form"] = form
+                e["data"] = in_form(e["data"], form, rng, sidecar=e["path"].endswith(".abstract"))
+    return ents
+
+
+def form_of_dir(tree, d):
+    """the content form the metadata of directory `d` is written in (None: plain)"""
+    for e in flatten(tree):
+        if e.get("form") and meta_dir(e["path"]) == d:
+            return e["form"]
+    return None
+
+
 def containers(rng, n):
     """how the archive file comes into being: who writes it and what happens to it afterwards.
     The list is walked in order (rotated per run), its first four already cover every writer, a
